@@ -25,13 +25,17 @@ SETUP = [
     "insert into u values (2, 200), (NULL, 300), (1, 100), (9, 900), (2, 15), (3, NULL)",
     "create table w(p int, q int)",
     "insert into w values (1, 1), (2, NULL), (NULL, 3), (7, 70), (2, 2)",
+    "create table k(id int primary key, v int)",
+    "insert into k values (5, 50), (1, 10), (9, NULL)",
+    "insert into k values (3, 30), (7, 70), (2, 20)",
+    "insert into k values (8, 80), (4, NULL), (6, 60)",
 ]
-TABS = {0: ["$0.0", "$0.1"], 1: ["$1.0", "$1.1"], 2: ["$2.0", "$2.1"]}
+TABS = {0: ["$0.0", "$0.1"], 1: ["$1.0", "$1.1"], 2: ["$2.0", "$2.1"], 3: ["$3.0", "$3.1"]}
 JOIN_TYPES = ["inner", "left_outer", "right_outer", "full_outer", "semi", "anti"]
 JT_OF_VARIANT = {"Inner": "inner", "LeftOuter": "left_outer", "RightOuter": "right_outer", "FullOuter": "full_outer", "Semi": "semi", "Anti": "anti"}
 # heads no executor runs (their meaning is tied by reference witnesses / C02), or that need a layout this
 # instantiator does not build (sorted inputs, primary keys)
-SKIP_HEADS = {"apply", "exists", "in", "mergejoin", "sortagg", "index_scan", "window"}
+SKIP_HEADS = {"apply", "exists", "in", "index_scan", "window"}
 
 
 class NoInst(Exception):
@@ -76,8 +80,10 @@ def instances(rule, max_n=8):
     if hs & SKIP_HEADS:
         raise NoInst("uses %s" % sorted(hs & SKIP_HEADS))
     for c in rule["conds"]:
-        if c["fn"] in ("is_orderby", "is_primary_key_range", "has_vector_index"):
-            raise NoInst("condition %s needs a sorted / keyed layout" % c["fn"])
+        if c["fn"] in ("has_vector_index",):
+            raise NoInst("condition %s needs a vector index" % c["fn"])
+    ordered = {c["args"][1]: c["args"][0] for c in rule["conds"] if c["fn"] == "is_orderby"}     # plan var -> key var
+    pk_range = [c["args"][0] for c in rule["conds"] if c["fn"] == "is_primary_key_range"]
     T.LIFTED.clear(); T.SUBST.clear(); T.CUR_SORTS.clear()
     sorts = {}
     try:
@@ -85,6 +91,7 @@ def instances(rule, max_n=8):
     except T.NotX as e:
         raise NoInst("sorts: %s" % e)
     pvars = [v for v, s in sorts.items() if s == "P"]
+    keyed_scan = bool(pk_range)       # the scan pattern of the filter-scan rules reads the keyed table
     order = {"?child": 0, "?left": 0, "?mid": 1, "?right": 2 if "?mid" in pvars else 1}
     tab = {}
     for v in pvars:
@@ -94,6 +101,8 @@ def instances(rule, max_n=8):
     if len(set(tab.values())) != len(tab):
         raise NoInst("plan variables share a table")
     allcols = [c for v in pvars for c in TABS[tab[v]]]
+    if not pvars and any(so == "TBL" for so in sorts.values()):
+        allcols = list(TABS[3 if keyed_scan else 0])
 
     def pool(v):
         cols = list(allcols)
@@ -116,7 +125,10 @@ def instances(rule, max_n=8):
         env = {}
         for v, so in sorts.items():
             if so == "P":
-                env[v] = scan(tab[v])
+                # an input the rule needs sorted by some keys is an explicit ORDER BY over the scan
+                env[v] = "(order (list %s) %s)" % (TABS[tab[v]][0], scan(tab[v])) if v in ordered else scan(tab[v])
+            elif so == "B" and v in pk_range:
+                env[v] = ["(> $3.0 2)", "(and (>= $3.0 2) (< $3.0 7))", "(= $3.0 4)", "(<= $3.0 5)", "(and (> $3.0 8) (< $3.0 3))", "(>= $3.0 9)"][k % 6]
             elif so == "B":
                 if under_hashjoin and v == "?cond":
                     env[v] = "true"          # the hash-join executor asserts a `true` residual for non-semi types
@@ -141,6 +153,9 @@ def instances(rule, max_n=8):
                     side = "?left" if v[1] == "l" else "?right" if v[1] == "r" else pvars[0]
                     cols = TABS[tab.get(side, tab[pvars[0]])]
                     env[v] = cols[(idx + k) % len(cols)]
+            elif so in ("EL", "CL", "KL") and v in ordered.values():
+                pv = next(p for p, kv in ordered.items() if kv == v)
+                env[v] = "(list %s)" % TABS[tab[pv]][0]
             elif so in ("EL", "CL"):
                 if any(c["fn"] == "schema_is_eq" and c["args"][0] == v for c in rule["conds"]):
                     env[v] = "(list %s)" % " ".join(TABS[tab[next(c["args"][1] for c in rule["conds"] if c["fn"] == "schema_is_eq")]])
@@ -152,7 +167,7 @@ def instances(rule, max_n=8):
                     cols = pool(v)
                     env[v] = "(list %s)" % cols[k % len(cols)]
                 elif v == "?columns":
-                    env[v] = "(list %s)" % " ".join(TABS[0])
+                    env[v] = "(list %s)" % " ".join(TABS[3 if keyed_scan else 0])
                 else:
                     cols = pool(v)
                     n = 1 + (k % len(cols))
@@ -174,12 +189,12 @@ def instances(rule, max_n=8):
             elif so == "OFF":
                 env[v] = ["1", "0", "2"][k % 3]
             elif so == "TBL":
-                env[v] = "$0"
+                env[v] = "$3" if keyed_scan else "$0"
             else:
                 raise NoInst("sort %s of %s" % (so, v))
         # parents of a projection may only read what it outputs: a filter above (proj ?proj ..) etc.
         text = render(lhs, env)
-        out.append((text, {v: env[v] for v in env}))
+        out.append((text, dict({v: env[v] for v in env}, **({"engine": "disk"} if keyed_scan or ordered else {}))))
     # distinct
     seen, uniq = set(), []
     for t, e in out:
